@@ -44,7 +44,7 @@ def _val(rng, sign):
 def gen_side(rng, v, sign, grid, t0, malformed=False):
     """one side of a bound pair for variable dict `v` (its own stamps `grid`)"""
     size = v["size"]
-    kinds = ["none", "none", "float", "float", "inf", "vec", "ts_same", "ts_other", "ts_inf"]
+    kinds = ["none", "none", "float", "float", "inf", "vec", "ts_same", "ts_other", "ts_inf", "ts_shift"]
     k = rng.choice(kinds)
     if malformed:
         k = rng.choice(["vec_bad", "ts_1d_on_vector", "ts2_badcols"])
@@ -67,6 +67,25 @@ def gen_side(rng, v, sign, grid, t0, malformed=False):
                          [t0 - 2.0, t0 - 1.0]])
     elif k in ("ts_same", "ts_1d_on_vector", "ts2_badcols") or (k == "ts_inf" and rng.random() < 0.5):
         ts = list(grid)
+    elif k == "ts_shift" and len(grid) > 1:
+        # as many stamps as the variable, but other times: shifted (partly outside the horizon, or
+        # starting in the history), compressed into a part of the horizon, or stretched
+        r = rng.random()
+        if r < 0.35:
+            d = rng.choice([0.25, -0.25, 0.125, -1.0, -0.5, 1.0])
+            ts = [t + d for t in grid]
+        elif r < 0.6:   # starts in the history, ends inside the horizon
+            a, b = grid[0] - rng.choice([1.0, 2.0, 0.5]), grid[-1] - (grid[-1] - grid[-2]) * rng.choice([0.5, 0.25, 1.0])
+            ts = [a + (b - a) * j / (len(grid) - 1) for j in range(len(grid))]
+        elif r < 0.8:   # covers only a part of the horizon
+            a, b = grid[0] + (grid[1] - grid[0]) * 0.5, grid[-1] - (grid[-1] - grid[-2]) * 0.5
+            if not a < b:
+                a, b = grid[0] + 0.125, grid[-1] + 0.125
+            ts = [a + (b - a) * j / (len(grid) - 1) for j in range(len(grid))]
+        else:           # same end points, inner stamps moved
+            ts = [grid[0]] + [(grid[j] + grid[j + 1]) / 2 for j in range(1, len(grid) - 1)] + [grid[-1]]
+            if len(ts) != len(grid) or ts == list(grid):
+                ts = [t + 0.25 for t in grid]
     else:
         # own stamps: not aligned with the variable's, possibly not covering it (fills apply)
         a = grid[0] - rng.choice([0.0, 1.0, 0.5]) if rng.random() < 0.7 else grid[0] + 0.25
@@ -169,7 +188,7 @@ def gen_instance(rng, big=False, malformed=False, solvable=False):
         mal = malformed and v["name"] == bad_var and v["size"] > 1
         lo, kl = gen_side(rng, v, -1, v["times"], t0, mal and rng.random() < 0.5)
         hi, kh = gen_side(rng, v, +1, v["times"], t0, mal and kl in ("none", "float", "inf", "vec", "vec1", "ts_same",
-                                                                      "ts_other", "ts_inf", "ts_same_2d",
+                                                                      "ts_other", "ts_inf", "ts_shift", "ts_shift_2d", "ts_same_2d",
                                                                       "ts_other_2d", "ts_inf_2d"))
         if solvable and v["kind"] in ("alg", "control"):
             lo, hi, kl, kh = None, None, "none", "none"
@@ -381,6 +400,24 @@ def check_instance(c, inst, mo, tag="main"):
         if v["kind"] == "path" and v["size"] > 1 and isinstance(v["nom"], list) and len(set(v["nom"])) > 1 and \
                 any(sd is not None and not (isinstance(sd, float) and math.isinf(sd)) for sd in (v["lo"], v["hi"])):
             c.hit("class/vector-path-variable-unequal-component-nominals-finite-bound")
+    for v in V:
+        for sd in (v["lo"], v["hi"]):
+            if isinstance(sd, dict) and "t" in sd and len(sd["t"]) == len(var_times(v, t0)) > 1 and \
+                    list(sd["t"]) != list(var_times(v, t0)):
+                c.hit("class/timeseries-bound-same-length-other-stamps"
+                      + ("-coarse-control" if v["kind"] == "control" and len(v["times"]) < len(inst["times"]) else ""))
+    if E >= 2:
+        for v in V:
+            if v["kind"] == "control":
+                vals = []
+                for m in range(E):
+                    h = inst["hist"][m].get(v["name"])
+                    if h is not None:
+                        hv = hist_at_t0(v["mode"], h, t0)
+                        if not math.isnan(hv):
+                            vals.append(hv)
+                if len(set(vals)) >= 2:
+                    c.hit("class/shared-control-members-disagree-at-t0 (last member wins)")
     if E >= 2:
         for v in V:
             if v["kind"] == "state":
